@@ -184,7 +184,9 @@ theorem load_samples_times (h : loadFull inv rate tden ncd one raw d = .ok (fv, 
   Lemmas.loadFull_times inv rate tden ncd one raw d fv d' h
 
 /-- The contrapositive of the rejection, on values: the spike times of every loaded model are
-non-decreasing (both layouts; `rate > 0` is asserted by the real constructor, model.py:338). -/
+non-decreasing (both layouts).  `rate > 0`: the real constructor asserts it (model.py:338: a negative
+`sample_rate` raises AssertionError, `0` / `None` is replaced by 1.0 with a warning); `tden > 0` is
+the denominator of the model's seconds tokens. -/
 theorem load_times_sorted (h : loadFull inv rate tden ncd one raw d = .ok (fv, d'))
     (hr : 0 < rate) (htd : 0 < tden) :
     ∀ i (hi : i + 1 < fv.spikeTimes.length), fv.spikeTimes[i] ≤ fv.spikeTimes[i + 1] :=
@@ -243,9 +245,11 @@ theorem load_spike_attributes (h : loadFull inv rate tden ncd one raw d = .ok (f
 model's traces returns the rows NumPy returns on the concatenated files, each restricted to the
 columns listed by the loaded channel map, in that order: row `r` becomes
 `[r[cm[0]], r[cm[1]], …]`, all lookups in range.
-Hypotheses: `n_channels_dat` given (`ncd ≠ 0`), rectangular raw files, non-negative channel ids
-(the real code accepts negative ids too — they wrap like NumPy indices, `-1` reads the last column of
-the file — which no dataset writer produces). -/
+Hypotheses: `n_channels_dat` given (`ncd ≠ 0`; with `n_channels_dat = 0` and raw files the real
+loader raises AssertionError in `_memmap_flat`, with `None` a TypeError), rectangular raw files (what
+`np.memmap` with a shape gives), non-negative channel ids (the real code accepts negative ids too —
+they wrap like NumPy indices, `-1` reads the last column of the file — which no dataset writer
+produces). -/
 theorem load_traces_permuted (parts : List (List (List β)))
     (h : loadFull inv rate tden ncd one (some parts) d = .ok (fv, d')) (hncd : ncd ≠ 0)
     (hrect : ∀ p ∈ parts, ∀ row ∈ p, row.length = ncd)
@@ -261,6 +265,13 @@ theorem load_traces_permuted (parts : List (List (List β)))
         ∀ k (hk : k < (Lemmas.chans fv.base.channelMap).length),
           (Np.take row (Lemmas.chans fv.base.channelMap))[k]? = row[(Lemmas.chans fv.base.channelMap)[k]]? :=
   Lemmas.loadFull_traces inv rate tden ncd one d fv d' parts h hncd hrect hnn it hd
+
+/-- A dataset without any template file is loaded only un-curated: the loaded clusters are the loaded
+templates.  (With curated clusters the real loader fails — `self.sparse_templates.cols` on `None`,
+AttributeError at model.py:419; datasets without templates are outside C04's quantifier.) -/
+theorem load_without_templates (h : loadFull inv rate tden ncd one raw d = .ok (fv, d'))
+    (ht : fv.base.templates = none) : fv.base.spikeClusters.data = fv.base.spikeTemplates.data :=
+  Lemmas.loadFull_uncurated_without_templates inv rate tden ncd one raw d fv d' h ht
 
 /-- Sample count and duration: with raw data the number of rows of the concatenated files and that
 number over the rate; without, no traces and the last spike time. -/
